@@ -762,6 +762,81 @@ def lossy_key_memo(model: Model, func: str) -> Optional[Tuple[int, str]]:
     return None
 
 
+def memo_ignores_parameter(model: Model, func: str) -> Optional[Tuple[int, str]]:
+    """A keyed memo in a module-level dict whose stored value is computed from (or BY: a callable) a parameter that the key does
+    not mention, in a function that the repository calls with at least two different arguments in that position:
+        def convert_cached(convert, x):  hit = TABLE.get(x) ... TABLE[x] = convert(x)
+        ... convert_cached(forward, a) ... convert_cached(inverse, b)
+    An entry stored for one of them answers for the other.  Definite only with all pieces: same key expression read and stored,
+    module-level table, parameter used by the stored value and absent from the key, two call sites that differ there."""
+    fi = model.funcs.get(func)
+    if fi is None or fi.is_module_body:
+        return None
+    fn = fi.node
+    params = [p for p in fi.params if p not in ("self", "cls")]
+    if len(params) < 2:
+        return None
+    local_names = {n.id for n in ast.walk(fn) if isinstance(n, ast.Name) and isinstance(n.ctx, ast.Store)} | set(fi.params)
+
+    def table_of(e: ast.AST) -> Optional[str]:
+        if isinstance(e, ast.Name) and e.id not in local_names and f"{fi.module}.{e.id}" in model.module_vars:
+            return e.id
+        return None
+    defs: Dict[str, List[ast.AST]] = {}
+    for n in ast.walk(fn):
+        if isinstance(n, ast.Assign):
+            for t in n.targets:
+                if isinstance(t, ast.Name):
+                    defs.setdefault(t.id, []).append(n.value)
+
+    def params_in(e: ast.AST, seen=None) -> Set[str]:
+        seen = seen or set()
+        out: Set[str] = set()
+        for x in ast.walk(e):
+            if isinstance(x, ast.Name) and isinstance(x.ctx, ast.Load):
+                if x.id in params:
+                    out.add(x.id)
+                elif x.id in defs and x.id not in seen:
+                    seen.add(x.id)
+                    for v in defs[x.id]:
+                        out |= params_in(v, seen)
+        return out
+    for n in ast.walk(fn):
+        if not isinstance(n, ast.Assign):
+            continue
+        for t in n.targets:
+            if not (isinstance(t, ast.Subscript) and table_of(t.value)):
+                continue
+            tab, ktext = table_of(t.value), core.src(t.slice)
+            read = any((isinstance(r, ast.Call) and isinstance(r.func, ast.Attribute) and r.func.attr == "get" and table_of(r.func.value) == tab
+                        and r.args and core.src(r.args[0]) == ktext) or
+                       (isinstance(r, ast.Subscript) and isinstance(r.ctx, ast.Load) and table_of(r.value) == tab and core.src(r.slice) == ktext)
+                       for r in ast.walk(fn))
+            if not read:
+                continue
+            missing = params_in(n.value) - params_in(t.slice)
+            for p in sorted(missing):
+                pos = fi.params.index(p)
+                seen_args: Set[str] = set()
+                for caller, sites in model.calls.items():
+                    for cs in sites:
+                        if func in getattr(cs, "callees", ()) and isinstance(cs.node, ast.Call):
+                            off = 1 if (fi.params and fi.params[0] in ("self", "cls")) else 0
+                            a = None
+                            if pos - off < len(cs.node.args) and not any(isinstance(x, ast.Starred) for x in cs.node.args):
+                                a = cs.node.args[pos - off]
+                            for k in cs.node.keywords:
+                                if k.arg == p:
+                                    a = k.value
+                            if a is not None:
+                                seen_args.add(core.src(a))
+                if len(seen_args) >= 2:
+                    return (n.lineno, f"`{core.src(n)[:80]}` stores under the key `{ktext}` a value computed from the parameter `{p}`, which the key does not "
+                            f"mention, and a hit in {tab} is returned; the repository calls {func} with {sorted(seen_args)[:3]} there: an entry stored for "
+                            f"one of them answers for the other")
+    return None
+
+
 CURRENT_EFF = None      # effect summaries of the World built last (one per check run)
 
 
@@ -847,6 +922,14 @@ def history_definite(model: Model, sw: "SharedWrite") -> bool:
             continue
         if base in ("method:reverse", "method:insert", "method:extend"):
             return True
+        if base == "method:append":
+            # X.append(X[0]) / X.append(f(X)): the new element is computed from the container it is appended to -- a read-modify-write
+            # of persistent data (every call makes it longer, and the same expression reads it)
+            for kk, _l, t in sw.records:
+                if kk.split(" (")[0] == "method:append":
+                    m_ = re.match(r"^\s*([A-Za-z_][\w\.]*)\.append\((.*)\)\s*$", t, re.S)
+                    if m_ and re.search(r"(?<![\w\.])" + re.escape(m_.group(1)) + r"(?![\w])", m_.group(2)):
+                        return True
         # (an in-place sort of persistent data is idempotent: whether a call ever sees the unsorted state is a question about
         #  the order of the data when it is first reached -- not positive evidence for the single-threaded history clause)
         if base == "subscript-store:const" and (sw.depth <= 1 or deep_store_is_rmw(model, sw)):
